@@ -3,6 +3,7 @@ import ErgoVerif.Lemmas.SupScan
 import ErgoVerif.Lemmas.SupOrder
 import ErgoVerif.Lemmas.SupLoopSOFO
 import ErgoVerif.Lemmas.SupLoopOFO
+import ErgoVerif.Lemmas.SupTrackOFO
 /-!
 # C08 — supervisor restart semantics by type and strategy
 
@@ -25,6 +26,7 @@ Contents
   `C08_sofo_all_stopped`, `C08_sofo_no_hang`.
 * T7 `C08_every_exit_noticed_once_{ofo,arfo,sofo}` — the glue, all three types, ALL histories.
 * one-for-one, closed system, ALL histories: `C08_ofo_no_panic` (no panic, handleAction terminates).
+* one-for-one tracking of the children table: inductive STEPS only (`C08_ofo_tracking_*_step`), closure not done.
 * refuted full statements (listed findings) with proved counterexamples:
   `C08_no_panic_arfo_full` (D18), `C08_prescribed_set_full` (D25), `C08_all_stopped_ofo_full` (D26, D27),
   and the partial results that do hold.
@@ -295,6 +297,73 @@ theorem C08_ofo_no_panic (sp : SupSpec) (hv : ValidSpec sp) (c : Loop OFO) (h : 
     c.status ≠ .panicked ∧ c.status ≠ .stuck := by
   obtain ⟨ls, hr⟩ := h
   exact (run_inv (Inv := OFO.Inv) (fun s a s' hi hs => OFO.step_inv s s' a hi hs) (OFO.boot_inv sp hv.1) hr).sane
+
+/-! ### one-for-one keeps track of exactly the children in `Supervisor.children` — inductive steps
+
+`OFO.TInv m kids`: spec names are distinct and non-empty; in normal operation the non-zero pids stored in the specs
+are exactly the pids of `Supervisor.children` (with the right spec name); while shutting down the wait set is exactly
+that set and a final reason is recorded.  The three theorems below are the inductive steps for the exit dispatch and
+for a spawn.  NOT done (time): the steps for the four management calls and the closure into a theorem over all
+histories — which can only hold for histories avoiding D26/D27 (see the counterexamples further down). -/
+
+/-- exit of a known child in normal operation: the invariant is re-established for the table without that child, and
+the answer is good: a `start` is for a spec without a child; `terminateChildren` on entering shutdown makes the
+machine wait for exactly the remaining children; `terminate` only when no child is left -/
+theorem C08_ofo_tracking_exit_step (m : OFO) (kids : List (Nat × Nat)) (h : OFO.TInv m kids) (hwf : OFO.WF m)
+    (hsd : m.shutdown = false) (pid n : Nat) (hk : (pid, n) ∈ kids) (r : Reason) (now : Int) :
+    OFO.TInv (m.childTerminated n pid r now).1 (kids.filter (fun x => x.1 ≠ pid)) ∧
+    ∃ a, (m.childTerminated n pid r now).2 = .ok a ∧
+      OFO.TGood (m.childTerminated n pid r now).1 (kids.filter (fun x => x.1 ≠ pid)) a :=
+  OFO.ct_track m kids h hwf hsd pid n hk r now
+
+/-- any exit while shutting down: the wait set shrinks with the table; the supervisor terminates exactly when the
+table is empty, with the recorded reason -/
+theorem C08_ofo_tracking_shutdown_step (m : OFO) (kids : List (Nat × Nat)) (h : OFO.TInv m kids)
+    (hsd : m.shutdown = true) (pid n : Nat) (r : Reason) (now : Int) :
+    OFO.TInv (m.childTerminated n pid r now).1 (kids.filter (fun x => x.1 ≠ pid)) ∧
+    ∃ a, (m.childTerminated n pid r now).2 = .ok a ∧
+      OFO.TGood (m.childTerminated n pid r now).1 (kids.filter (fun x => x.1 ≠ pid)) a :=
+  OFO.ct_track_shut m kids h hsd pid n r now
+
+/-- an exit that belongs to no child: every child in the table is told to stop and waited for -/
+theorem C08_ofo_tracking_foreign_step (m : OFO) (kids : List (Nat × Nat)) (h : OFO.TInv m kids) (hsd : m.shutdown = false)
+    (np : Nat) (hnp0 : np ≠ 0) (hfresh : ∀ p, p ∈ keys kids → p < np) (r : Reason) (now : Int) :
+    OFO.TInv (m.childTerminated 0 np r now).1 kids ∧
+    ∃ a, (m.childTerminated 0 np r now).2 = .ok a ∧ OFO.TGood (m.childTerminated 0 np r now).1 kids a :=
+  OFO.ct_track_foreign m kids h hsd np hnp0 hfresh r now
+
+/-- a spawn for a good `start` action: the new (fresh) pid is recorded for the right spec, and what `childStarted`
+asks next is again a good action -/
+theorem C08_ofo_tracking_start_step (m : OFO) (kids : List (Nat × Nat)) (h : OFO.TInv m kids) (a : Action)
+    (hg : m.shutdown = false ∧ OFO.ValidStart m a ∧ ∃ c : ChildSpec, m.spec[a.spec.i]? = some c ∧ c.pid = 0)
+    (np : Nat) (hnp0 : np ≠ 0) (hfresh : ∀ p, p ∈ keys kids → p < np) :
+    OFO.TInv (m.childStarted a.spec np).1 ((np, a.spec.name) :: kids) ∧
+    ∃ a', (m.childStarted a.spec np).2 = .ok a' ∧ OFO.TGood (m.childStarted a.spec np).1 ((np, a.spec.name) :: kids) a' ∧
+      (a'.act = .nothing ∨ a'.act = .start) :=
+  OFO.childStarted_track m kids h a hg np hnp0 hfresh
+
+/-- non-vacuity of `OFO.TInv`: c1 running as pid 5, c2 without a child -/
+example : OFO.TInv { spec := [{ name := 1, pid := 5, i := 0 }, { name := 2, pid := 0, i := 1 }] } [(5, 1)] := by
+  constructor
+  · decide
+  · intro c hc; simp at hc; rcases hc with rfl | rfl <;> decide
+  · intro c1 c2 h1 h2 he hne
+    simp at h1 h2
+    rcases h1 with rfl | rfl <;> rcases h2 with rfl | rfl <;> simp_all
+  · intro _
+    constructor
+    · intro p
+      simp [keys]
+      constructor
+      · rintro rfl; exact ⟨by decide, Or.inl rfl⟩
+      · rintro ⟨hp0, h1 | h1⟩
+        · exact h1.symm
+        · exact absurd h1.symm hp0
+    · intro p n hpn
+      simp at hpn
+      obtain ⟨rfl, rfl⟩ := hpn
+      exact ⟨{ name := 1, pid := 5, i := 0 }, by simp, rfl, rfl⟩
+  · intro hx; simp at hx
 
 /-- T8, full: no reachable panic in all/rest-for-one -/
 def C08_no_panic_arfo_full : Prop :=
